@@ -129,6 +129,15 @@ def check_replay(ctx, case):
         # (C) the recording operation mutates what intercepted calls returned, right after the call
         live_prog = mutating_variant(prog)
         live_prog['params'] = {'copy_data_on_intercepion': True}
+        # whether a recording is kept is a separate matter (C17): classes recorded only on demand (rate 0, kept by
+        # forced sampling) or sampled (rate 0.5, forced here so that there is a recording to look at) copy as well
+        extra = case.get('copy_params')
+        if extra:
+            live_prog['params'].update(extra['params'])
+            if extra['params'].get('sampling_rate', 1) < 1:
+                at = 0 if extra.get('force_first') else len(live_prog['steps'])
+                live_prog['steps'].insert(at, {'t': 'force'})
+                live_prog = PS.assign_sids(live_prog)
     z, rec_cas, fetch_cas = open_cassette(case['cassette'])
     classes = []
     try:
@@ -226,7 +235,8 @@ def check_replay(ctx, case):
         for c in classes:
             PS.forget_class(c)
         z.__exit__(None, None, None)
-    ctx.case(case, changed > 0, classes=('replay', 'cassette:' + case['cassette'], 'copy-on' if copy_on else 'copy-off'))
+    ctx.case(case, changed > 0, classes=('replay', 'cassette:' + case['cassette'], 'copy-on' if copy_on else 'copy-off') + (
+        ('copy-on:params=%s' % sorted((case.get('copy_params') or {}).get('params', {}).items()),) if copy_on else ()))
 
 
 def pb_digest(W):
@@ -254,7 +264,13 @@ def replay_cases():
                                     out_behs=('ret', 'ret', 'raise'), endings=('return',)) for vals in (fam_a, fam_a, fam_b)])
     return st.fixed_dictionaries({'kind': st.just('replay'), 'prog': progs,
                                   'cassette': st.sampled_from(['memory', 'memory', 'file', 's3', 'async']),
-                                  'copy_on': st.booleans()})
+                                  'copy_on': st.booleans(),
+                                  'copy_params': st.sampled_from([
+                                      None, None, {'params': {'sampling_rate': 0}, 'force_first': True},
+                                      {'params': {'sampling_rate': 0}, 'force_first': False},
+                                      {'params': {'sampling_rate': 0.5}, 'force_first': True},
+                                      {'params': {'sampling_rate': 2}},
+                                      {'params': {'ignore_enforced_sampling': True}}])})
 
 
 def replay(ctx, case):
